@@ -27,7 +27,8 @@ type Frame struct {
 	fn        *ssa.Function
 	block     *ssa.BasicBlock
 	prevBlock *ssa.BasicBlock
-	env       map[ssa.Value]Value
+	env       []Value
+	info      *fnInfo
 	locals    []Value
 	defers    *deferred
 	result    Value
@@ -48,8 +49,8 @@ func (fr *Frame) get(key ssa.Value) Value {
 	case *ssa.Global:
 		return fr.p.globalAddr(key)
 	}
-	if r, ok := fr.env[key]; ok {
-		return r
+	if i, ok := fr.info.idx[key]; ok {
+		return fr.env[i]
 	}
 	panic(fmt.Sprintf("get: no value for %T: %v in %s", key, key.Name(), fr.fn))
 }
@@ -300,18 +301,19 @@ func (p *Path) callSSA(th *Thread, caller *Frame, fn *ssa.Function, args []Value
 		defer func() { th.depth-- }()
 	}
 	fr := &Frame{p: p, th: th, caller: caller, fn: fn}
-	fr.env = make(map[ssa.Value]Value, 16)
+	fr.info = p.e.fnInfoOf(fn)
+	fr.env = make([]Value, fr.info.n)
 	fr.block = fn.Blocks[0]
 	fr.locals = make([]Value, len(fn.Locals))
 	for i, l := range fn.Locals {
 		fr.locals[i] = p.e.zero(p.tt, l.Type().(*types.Pointer).Elem())
-		fr.env[l] = &fr.locals[i]
+		fr.set(l, &fr.locals[i])
 	}
 	for i, prm := range fn.Params {
-		fr.env[prm] = args[i]
+		fr.set(prm, args[i])
 	}
 	for i, fv := range fn.FreeVars {
-		fr.env[fv] = env[i]
+		fr.set(fv, env[i])
 	}
 	if _, ok := p.funcs[name]; !ok {
 		n := 0
@@ -461,26 +463,26 @@ func (p *Path) visitInstr(fr *Frame, instr ssa.Instruction) continuation {
 	switch instr := instr.(type) {
 	case *ssa.DebugRef:
 	case *ssa.UnOp:
-		fr.env[instr] = p.unop(fr, instr, fr.get(instr.X))
+		fr.set(instr, p.unop(fr, instr, fr.get(instr.X)))
 	case *ssa.BinOp:
-		fr.env[instr] = p.binop(instr.Op, instr.X.Type(), fr.get(instr.X), fr.get(instr.Y))
+		fr.set(instr, p.binop(instr.Op, instr.X.Type(), fr.get(instr.X), fr.get(instr.Y)))
 	case *ssa.Call:
 		fn, args := p.prepareCall(fr, &instr.Call)
-		fr.env[instr] = p.call(fr.th, fr, fn, args)
+		fr.set(instr, p.call(fr.th, fr, fn, args))
 	case *ssa.ChangeInterface:
-		fr.env[instr] = fr.get(instr.X)
+		fr.set(instr, fr.get(instr.X))
 	case *ssa.ChangeType:
-		fr.env[instr] = fr.get(instr.X)
+		fr.set(instr, fr.get(instr.X))
 	case *ssa.Convert:
-		fr.env[instr] = p.conv(instr.Type(), instr.X.Type(), fr.get(instr.X))
+		fr.set(instr, p.conv(instr.Type(), instr.X.Type(), fr.get(instr.X)))
 	case *ssa.SliceToArrayPointer:
 		p.unsupported("SliceToArrayPointer")
 	case *ssa.MakeInterface:
-		fr.env[instr] = Iface{t: instr.X.Type(), v: fr.get(instr.X)}
+		fr.set(instr, Iface{t: instr.X.Type(), v: fr.get(instr.X)})
 	case *ssa.Extract:
-		fr.env[instr] = fr.get(instr.Tuple).(Tuple)[instr.Index]
+		fr.set(instr, fr.get(instr.Tuple).(Tuple)[instr.Index])
 	case *ssa.Slice:
-		fr.env[instr] = p.sliceOp(instr, fr.get(instr.X), fr.get(instr.Low), fr.get(instr.High), fr.get(instr.Max))
+		fr.set(instr, p.sliceOp(instr, fr.get(instr.X), fr.get(instr.Low), fr.get(instr.High), fr.get(instr.Max)))
 	case *ssa.Return:
 		switch len(instr.Results) {
 		case 0:
@@ -544,14 +546,14 @@ func (p *Path) visitInstr(fr *Frame, instr ssa.Instruction) continuation {
 		p.sched.spawn(name, func(th *Thread) { p.call(th, nil, fn, args) })
 	case *ssa.MakeChan:
 		n := p.concreteInt(fr.get(instr.Size), "chan size")
-		fr.env[instr] = p.sched.newChan(int(n))
+		fr.set(instr, p.sched.newChan(int(n)))
 	case *ssa.Alloc:
 		var addr *Value
 		if instr.Heap {
 			addr = new(Value)
-			fr.env[instr] = addr
+			fr.set(instr, addr)
 		} else {
-			addr = fr.env[instr].(*Value)
+			addr = fr.get(instr).(*Value)
 		}
 		*addr = p.e.zero(tt, instr.Type().(*types.Pointer).Elem())
 	case *ssa.MakeSlice:
@@ -565,13 +567,13 @@ func (p *Path) visitInstr(fr *Frame, instr ssa.Instruction) continuation {
 		for i := range a {
 			a[i] = p.e.zero(tt, tElt)
 		}
-		fr.env[instr] = Slice{a: a[:l]}
+		fr.set(instr, Slice{a: a[:l]})
 	case *ssa.MakeMap:
-		fr.env[instr] = newMap()
+		fr.set(instr, newMap())
 	case *ssa.Range:
-		fr.env[instr] = p.rangeIter(fr.get(instr.X), instr.X.Type())
+		fr.set(instr, p.rangeIter(fr.get(instr.X), instr.X.Type()))
 	case *ssa.Next:
-		fr.env[instr] = fr.get(instr.Iter).(iter).next(p)
+		fr.set(instr, fr.get(instr.Iter).(iter).next(p))
 	case *ssa.FieldAddr:
 		ptr := fr.get(instr.X).(*Value)
 		if ptr == nil {
@@ -581,23 +583,23 @@ func (p *Path) visitInstr(fr *Frame, instr ssa.Instruction) continuation {
 		if !ok {
 			p.unsupported("FieldAddr on %T (%s)", *ptr, instr.X.Type())
 		}
-		fr.env[instr] = &s[instr.Field]
+		fr.set(instr, &s[instr.Field])
 	case *ssa.Field:
-		fr.env[instr] = copyVal(fr.get(instr.X).(Struct)[instr.Field])
+		fr.set(instr, copyVal(fr.get(instr.X).(Struct)[instr.Field]))
 	case *ssa.IndexAddr:
 		x := fr.get(instr.X)
 		idx := fr.get(instr.Index).(*Term)
 		switch x := x.(type) {
 		case Slice:
 			i := p.indexCheck(idx, len(x.a), instr.Index.Type())
-			fr.env[instr] = &x.a[i]
+			fr.set(instr, &x.a[i])
 		case *Value:
 			if x == nil {
 				panic(targetPanic{mkExtErr("runtime error: invalid memory address or nil pointer dereference")})
 			}
 			a := (*x).(Array)
 			i := p.indexCheck(idx, len(a), instr.Index.Type())
-			fr.env[instr] = &a[i]
+			fr.set(instr, &a[i])
 		default:
 			panic(fmt.Sprintf("IndexAddr on %T", x))
 		}
@@ -607,15 +609,15 @@ func (p *Path) visitInstr(fr *Frame, instr ssa.Instruction) continuation {
 		switch x := x.(type) {
 		case Array:
 			i := p.indexCheck(idx, len(x), instr.Index.Type())
-			fr.env[instr] = copyVal(x[i])
+			fr.set(instr, copyVal(x[i]))
 		case string:
 			i := p.indexCheck(idx, len(x), instr.Index.Type())
-			fr.env[instr] = p.mkInt(types.Typ[types.Uint8], int64(x[i]))
+			fr.set(instr, p.mkInt(types.Typ[types.Uint8], int64(x[i])))
 		default:
 			panic(fmt.Sprintf("Index on %T", x))
 		}
 	case *ssa.Lookup:
-		fr.env[instr] = p.lookup(instr, fr.get(instr.X), fr.get(instr.Index))
+		fr.set(instr, p.lookup(instr, fr.get(instr.X), fr.get(instr.Index)))
 	case *ssa.MapUpdate:
 		m := fr.get(instr.Map).(*MapObj)
 		if m == nil {
@@ -623,17 +625,17 @@ func (p *Path) visitInstr(fr *Frame, instr ssa.Instruction) continuation {
 		}
 		p.mapSet(m, fr.get(instr.Key), fr.get(instr.Value))
 	case *ssa.TypeAssert:
-		fr.env[instr] = p.typeAssert(instr, fr.get(instr.X).(Iface))
+		fr.set(instr, p.typeAssert(instr, fr.get(instr.X).(Iface)))
 	case *ssa.MakeClosure:
 		var bindings []Value
 		for _, b := range instr.Bindings {
 			bindings = append(bindings, fr.get(b))
 		}
-		fr.env[instr] = &Closure{fn: instr.Fn.(*ssa.Function), env: bindings}
+		fr.set(instr, &Closure{fn: instr.Fn.(*ssa.Function), env: bindings})
 	case *ssa.Phi:
 		for i, pred := range instr.Block().Preds {
 			if fr.prevBlock == pred {
-				fr.env[instr] = fr.get(instr.Edges[i])
+				fr.set(instr, fr.get(instr.Edges[i]))
 				break
 			}
 		}
@@ -711,3 +713,43 @@ func constantString(c *ssa.Const) string {
 }
 
 var _ = token.ADD
+
+type fnInfo struct {
+	idx map[ssa.Value]int
+	n   int
+}
+
+func (fr *Frame) set(key ssa.Value, v Value) {
+	fr.env[fr.info.idx[key]] = v
+}
+
+func (e *Engine) fnInfoOf(fn *ssa.Function) *fnInfo {
+	if v, ok := e.fnInfos.Load(fn); ok {
+		return v.(*fnInfo)
+	}
+	info := &fnInfo{idx: map[ssa.Value]int{}}
+	add := func(v ssa.Value) {
+		if _, ok := info.idx[v]; !ok {
+			info.idx[v] = info.n
+			info.n++
+		}
+	}
+	for _, p := range fn.Params {
+		add(p)
+	}
+	for _, f := range fn.FreeVars {
+		add(f)
+	}
+	for _, l := range fn.Locals {
+		add(l)
+	}
+	for _, b := range fn.Blocks {
+		for _, ins := range b.Instrs {
+			if v, ok := ins.(ssa.Value); ok {
+				add(v)
+			}
+		}
+	}
+	v, _ := e.fnInfos.LoadOrStore(fn, info)
+	return v.(*fnInfo)
+}
